@@ -261,6 +261,35 @@ def gwgebv(counts, u, fafreq, alpha):
     return out
 
 
+def wgebv_arcsine(counts, u, fafreq):
+    """Weighted GEBV of the wGEBV *matrix* class: marker weight (pi/2 - asin(sqrt p)) / sqrt(p(1-p)) for a favourable
+    allele frequency 0 < p < 1, weight 1 for p = 0 (the documented branch); p = 1 is outside the domain (0/0)."""
+    out = []
+    for i in range(len(counts)):
+        row = []
+        for t in range(len(u[0])):
+            terms = []
+            for l in range(len(u)):
+                f = float(fafreq[l][t])
+                assert f < 1.0
+                w = 1.0 if f == 0.0 else (math.asin(1.0) - math.asin(math.sqrt(f))) / math.sqrt(f * (1.0 - f))
+                terms.append(counts[i][l] * float(u[l][t]) * w)
+            row.append(math.fsum(terms))
+        out.append(row)
+    return out
+
+
+def embv_of_taxon(replicate_progeny_counts, u, intercept):
+    """Expected maximum breeding value of ONE taxon: mean over its own replicates of the largest progeny GEBV
+    (per trait); replicate_progeny_counts[r] = allele-count rows of the progeny simulated in replicate r."""
+    nt = len(u[0])
+    best = []
+    for cnt in replicate_progeny_counts:
+        g = gebv(cnt, u, intercept)
+        best.append([max(row[t] for row in g) for t in range(nt)])
+    return [math.fsum(b[t] for b in best) / len(best) for t in range(nt)]
+
+
 def tafreq(counts, ploidy):
     return [[Fr(counts[i][l], ploidy) for l in range(len(counts[0]))] for i in range(len(counts))]
 
